@@ -151,7 +151,8 @@ class Ctx:
             self.broken.append({'kind': 'obligation', 'name': 'lint', 'detail': p, 'candidates': []})
         if res.ok and not probs and self.tier == 'thorough' and not os.environ.get('VERIF_NO_COQCHK'):
             for t in targets:
-                self.coqchk(t)
+                if t.startswith('props/'):
+                    self.coqchk(t)
         self.log('prove %s: %s (%d files, %d recompiled, %.1fs, %d obligations)' % (
             target, 'ok' if res.ok and not probs else 'BROKEN', len(cone), len(res.compiled), res.seconds, len(obl)))
         return res.ok and not probs
@@ -159,7 +160,8 @@ class Ctx:
     def coqchk(self, target):
         """Thorough tier: re-check the compiled cone with the independent checker and record its context summary."""
         import subprocess
-        mod = 'PKProps.' + Path(target).stem
+        parts = Path(target).with_suffix('').parts
+        mod = {'theories': 'PK', 'gen': 'PKGen', 'props': 'PKProps'}[parts[0]] + '.' + '.'.join(parts[1:])
         t0 = time.time()
         r = subprocess.run(['timeout', '1800', 'coqchk', '-silent', '-o', '-Q', 'theories', 'PK', '-Q', 'gen', 'PKGen',
                             '-Q', 'props', 'PKProps', mod], cwd=str(coqbuild.COQ), capture_output=True, text=True)
@@ -337,7 +339,9 @@ class Ctx:
         cov['broken'] = [{k: b[k] for k in ('kind', 'name')} for b in self.broken]
         if self.notes:
             cov['notes'] = self.notes
-        ev = {'property_id': self.prop, 'tier': self.tier, 'seed': self.seed, 'level': self.level,
+        if len(self.level.split()) > 1:
+            cov['level_qualifier'] = self.level      # e.g. 'proof (partial)': see level_note in MANIFEST.json
+        ev = {'property_id': self.prop, 'tier': self.tier, 'seed': self.seed, 'level': self.level.split()[0],
               'coverage': cov, 'assumptions': cov.get('assumptions_text', []),
               'wall_s': round(time.time() - self.t0, 2), 'violations': (1 if rc else 0)}
         cov.pop('assumptions_text', None)
